@@ -81,6 +81,26 @@ class ObserverKernel:
         return WarmupOutcome(0, kernel_state)
 
 
+class WarningStepKernel(ObserverKernel):
+    """Verif-owned kernel (public protocol): adds 1 to its own key in every transition and reports a
+    non-zero, purely informational error code in odd iterations — as NUTS does when it reaches the
+    maximum tree depth and still moves."""
+
+    error_book: ClassVar[dict[int, str]] = {0: "no errors", 2: "informational warning"}
+
+    def __init__(self, key, liesel):
+        super().__init__([])
+        self.position_keys = (key,)
+        self._liesel = liesel
+
+    def transition(self, prng_key, kernel_state, model_state, epoch):
+        k = self.position_keys[0]
+        cur = model_state[f"{k}_value"].value if self._liesel else model_state[k]
+        new_state = self._model.update_state({k: cur + 1.0}, model_state)
+        code = jnp.asarray(epoch.time % 2 * 2, jnp.int32)
+        return TransitionOutcome(DefaultTransitionInfo(code, jnp.float32(1.0), jnp.int32(1)), kernel_state, new_state)
+
+
 # ---------------------------------------------------------------------------- plans
 
 
@@ -102,13 +122,18 @@ def gen_plan(rng, tier: str, idx: int) -> dict:
             "step": {"beta": rng.choice([0.05, 0.2, 0.6]), "scale": rng.choice([0.1, 0.5, 1.5]), "z": rng.choice([0.5, 2.0, 4.0])},
             "gibbs_pair": rng.random() < 0.5, "pair_order": rng.choice(["xy", "yx"]),
             # user-assigned kernel identifiers whose alphabetical order differs from the configured order
-            "ident_seed": rng.randrange(10**6) if rng.random() < 0.5 else None}
+            "ident_seed": rng.randrange(10**6) if rng.random() < 0.5 else None,
+            "warning_kernel": rng.random() < 0.6}
 
 
 def shrink_candidates(plan):
     if plan["gibbs_pair"]:
         p = copy.deepcopy(plan)
         p["gibbs_pair"] = False
+        yield p
+    if plan.get("warning_kernel"):
+        p = copy.deepcopy(plan)
+        p["warning_kernel"] = False
         yield p
     if plan.get("ident_seed") is not None:
         p = copy.deepcopy(plan)
@@ -174,7 +199,8 @@ def build_liesel(plan):
     gx = lsl.Var(jnp.float32(1.0), name="gx")
     gy = lsl.Var(jnp.float32(2.0), name="gy")
     gsum = lsl.Calc(lambda a, b: a + 10.0 * b, gx, gy, _name="gsum")
-    model = lsl.GraphBuilder().add(yv, d, gsum).build_model()
+    gw = lsl.Var(jnp.float32(0.0), name="gw")
+    model = lsl.GraphBuilder().add(yv, d, gsum, gw).build_model()
     return model, gs.LieselInterface(model), model.state
 
 
@@ -216,11 +242,11 @@ def build_dict(plan):
         lpz = tfd.Uniform(-1.5, 1.5).log_prob(s["z"]) if plan["z_prior"] == "uniform" else tfd.Normal(0.0, 1.0).log_prob(s["z"])
         return jnp.sum(tfd.Normal(Xj @ s["beta"], sigma).log_prob(yj)) + jnp.sum(tfd.Normal(0.0, 10.0).log_prob(s["beta"])) + lps + lpz
 
-    state = {"beta": jnp.asarray([0.1, -0.2], jnp.float32), sk: jnp.float32(0.1), "z": jnp.float32(0.2), "gx": jnp.float32(1.0), "gy": jnp.float32(2.0)}
+    state = {"beta": jnp.asarray([0.1, -0.2], jnp.float32), sk: jnp.float32(0.1), "z": jnp.float32(0.2), "gx": jnp.float32(1.0), "gy": jnp.float32(2.0), "gw": jnp.float32(0.0)}
     return None, gs.DictInterface(lp), state
 
 
-DESC = {"beta": {"mu", "d", "__log_prob"}, "scale": {"sigma", "__log_prob"}, "z": {"d", "__log_prob"}, "gx": {"gsum"}, "gy": {"gsum"}}
+DESC = {"beta": {"mu", "d", "__log_prob"}, "scale": {"sigma", "__log_prob"}, "z": {"d", "__log_prob"}, "gx": {"gsum"}, "gy": {"gsum"}, "gw": set()}
 
 
 def make_kernel(kind, keys, step):
@@ -250,7 +276,7 @@ def execute(plan: dict) -> dict:
     liesel = plan["model"] == "liesel"
     model, iface, state0 = build_liesel(plan) if liesel else build_dict(plan)
     sk = scale_key(plan)
-    params = ["beta", sk, "z", "gx", "gy"]
+    params = ["beta", sk, "z", "gx", "gy", "gw"]
     derived = ["sigma", "mu", "d", "gsum"] if liesel else []
     watch = params + derived
     block_keys = {"beta": ["beta"], "scale": [sk], "z": ["z"]}
@@ -291,6 +317,10 @@ def execute(plan: dict) -> dict:
         pair = [("gx", gx), ("gy", gy)] if plan["pair_order"] == "xy" else [("gy", gy), ("gx", gx)]
         real = real[:1] + pair[:1] + real[1:] + pair[1:]
         block_keys["gx"], block_keys["gy"] = ["gx"], ["gy"]
+    if plan.get("warning_kernel"):
+        # owns gx's sibling key "gw" (a free parameter that feeds nothing)
+        real.insert(min(1, len(real)), ("gw", WarningStepKernel("gw", liesel)))
+        block_keys["gw"] = ["gw"]
     seq.append(("obs", ObserverKernel(watch)))
     for b, ker in real:
         seq.append((b, ker))
@@ -358,6 +388,12 @@ def execute(plan: dict) -> dict:
             for k in watch:
                 if not eq(np.asarray(samples[k][c, t + 1]), np.asarray(seen[-1][k][c, t], samples[k].dtype)):
                     V.add("hand-over", "stored-position", f"chain {c} iteration {t}: stored {k} = {samples[k][c, t + 1].tolist()}, last kernel left {seen[-1][k][c, t].tolist()}")
+            # a kernel that reports a warning code must still hand its state to its successor
+            if plan.get("warning_kernel"):
+                w0, w1 = F64(seen[0]["gw"][c, t]), F64(seen[-1]["gw"][c, t])
+                if w1 != w0 + 1.0:
+                    V.add("state-left-by-predecessor", "kernel-with-nonzero-error-code",
+                          f"chain {c} iteration {t} (global time {t + 1}, code {2 * ((t + 1) % 2)}): the kernel owning gw adds 1 in every transition, but gw went {w0} -> {w1}")
             # deterministic pair: order observable
             if plan["gibbs_pair"]:
                 x0, y0 = F64(seen[0]["gx"][c, t]), F64(seen[0]["gy"][c, t])
